@@ -830,6 +830,8 @@ class Interp:
         """is <cls>.<name> to be inlined?  listed under the class itself or under the base class that defines it"""
         if f"{cls}.{name}" in self.inline:
             return True
+        if self.auto_private and cls.startswith("_") and self.idx is not None and self.idx.has_cls(cls) and self.idx.has_method(cls, name):
+            return True   # a private helper class of the package: its objects are created and used by interpreted code only
         if self.idx is not None and self.idx.has_cls(cls):
             for c in self.idx.mro(cls):
                 if f"{c.name}.{name}" in self.inline and (name in c.methods or name in c.properties):
@@ -1112,6 +1114,10 @@ class Interp:
                 return frame[f.id](*self._pos_args(e, frame))
             if f.id in frame and isinstance(frame[f.id], _MethodRef):
                 return frame[f.id](*self._pos_args(e, frame), **{k.arg: self.eval(k.value, frame) for k in e.keywords if k.arg})
+            # a private helper class of the analysed package (not a NamedTuple): a fresh abstract object whose fields live in the store
+            if (self.auto_private and f.id.startswith("_") and f.id not in frame and self.idx is not None and self.idx.has_cls(f.id) and len(self.idx.classes[f.id]) == 1
+                    and "NamedTuple" not in self.idx.classes[f.id][0].bases and f.id not in self.handlers):
+                return self._new_private(self.idx.classes[f.id][0], self._pos_args(e, frame), {k.arg: self.eval(k.value, frame) for k in e.keywords if k.arg})
             # a NamedTuple class of the analysed source: its instances are concrete tuples with named fields
             if f.id not in frame and self.idx is not None and self.idx.has_cls(f.id) and len(self.idx.classes[f.id]) == 1 and "NamedTuple" in self.idx.classes[f.id][0].bases:
                 ci = self.idx.classes[f.id][0]
@@ -1363,6 +1369,42 @@ class Interp:
             self.path.trace.append(("call", ckey, (args, kwargs)))
             return Residual(f"{ckey}({', '.join([txt(a) for a in args] + [k + '=' + txt(v) for k, v in kwargs.items()])})")
         raise Undecidable(f"call to unmodelled callee {ckey} in {full}")
+
+    def _new_private(self, ci, pos, kw):
+        n = self.store.get("__new__", 0) + 1
+        self.store["__new__"] = n
+        name = f"{ci.name}#{n}"
+        self.types[name] = ci.name
+        is_dc = any((isinstance(d, ast.Name) and d.id == "dataclass") or (isinstance(d, ast.Call) and unparse(d.func).endswith("dataclass")) for d in ci.node.decorator_list)
+        if is_dc and "__init__" not in ci.methods:
+            names, defaults = _nt_fields(ci)
+            for i, fld in enumerate(names):
+                if i < len(pos):
+                    v = pos[i]
+                elif fld in kw:
+                    v = kw[fld]
+                elif fld in defaults:
+                    d = defaults[fld]
+                    if isinstance(d, ast.Call) and unparse(d.func) in ("field", "dataclasses.field"):
+                        fk = {k.arg: k.value for k in d.keywords}
+                        if "default_factory" in fk:
+                            v = self.eval(ast.Call(func=fk["default_factory"], args=[], keywords=[]), {})
+                        elif "default" in fk:
+                            v = self.eval(fk["default"], {})
+                        else:
+                            raise Raised("TypeError")
+                    else:
+                        v = self.eval(d, {})
+                else:
+                    raise Raised("TypeError")
+                self.store[f"{name}.{fld}"] = v
+            if self.idx.has_method(ci.name, "__post_init__"):
+                self.call_function(self.idx.method(ci.name, "__post_init__"), {"__pos__": []}, name)
+        elif self.idx.has_method(ci.name, "__init__"):
+            a = dict(kw)
+            a["__pos__"] = list(pos)
+            self.call_function(self.idx.method(ci.name, "__init__"), a, name)
+        return Obj(name)
 
     def _pos_args(self, e, frame):
         """positional arguments of a call with `*iterable` expanded"""
